@@ -236,7 +236,7 @@ def roles_of(cx, crate, b, leftrec_paths):
                     roles.add("neg_lookahead")
                 if v == "ExpectedCharacterClass":
                     roles.add("char_class")
-    if b.path in leftrec_paths:
+    if any(b.path == lp or b.path.startswith(lp + "::") for lp in leftrec_paths):
         roles.add("leftrec")
     return roles
 
@@ -271,8 +271,8 @@ def check_fold_body(cx, chk, crate, b, label, leftrec_paths):
 
 
 def check_fold(cx, chk):
-    ws = memo.cached_wrappers(cx)
-    leftrec_paths = {w.body.path for w in ws if w.ok and w.leftrec}
+    from . import wrapsem
+    leftrec_paths = {w.path for w in wrapsem.cached(cx) if w.ok and w.leftrec}
     total = 0
     for inst in cx.instances():
         n_inst = 0
@@ -573,43 +573,17 @@ def check_at(cx, chk):
 
 
 def check_sentinel(cx, chk):
+    from . import wrapsem
     n = 0
-    for w in memo.cached_wrappers(cx):
+    for w in wrapsem.cached(cx):
         if not w.ok or not w.leftrec:
             continue
         n += 1
-        tag = "%s/%s" % (w.inst.name, w.rule)
-        b = w.body
-        L = memo.LeftrecLoop(w)
-        if L.problems:
-            chk.violation("C10.sentinel", tag + " shape", "left-recursive wrapper not recognised: %s" % L.problems, cx.site(b))
-            continue
-        Bx = ("local", L.B)
-        bad = None
-        # every path from the loop head to a return either goes through an arm that requires best = Ok,
-        # or reassigns best from the new evaluation
-        defs_in_loop = {db for (db, _) in L.loop_defs}
-        for pth in L.iter_paths(L.head, set(b.returns)):
-            edges = L.path_edges(pth)
-            best_ok = any(e[0] == "discr" and e[1] == Bx and v == 0 for (e, v, _) in edges)
-            reassigned = any(x in defs_in_loop for x in pth)
-            loops_again = False
-            if not best_ok and not reassigned:
-                bad = pth
-                break
-        # and every return in the miss region returns B (C07.exit) - a direct return of a body failure would bypass this
-        direct = []
-        for d in b.defs.get(0, []):
-            if d[0] in b.reachable_from(w.miss) and not b.dominates(w.hit, d[0]):
-                okr = d[2] == "rv" and d[3]["k"] == "use" and d[3]["op"].get("place") == {"l": L.B, "p": []}
-                if not okr:
-                    direct.append(d[0])
-        if bad or direct:
-            chk.violation("C10.sentinel", tag, "an exit of the left-recursive wrapper can return while the stored/returned best "
-                          "result is still the seed sentinel (or bypasses the best result altogether)", cx.site(b, (bad or direct)[-1] if bad else direct[0]),
-                          {"path": memo.describe_path(b, bad) if bad else None, "direct_returns": direct})
-        else:
-            chk.ok("C10.sentinel", tag, {"wrapper": tag, "exit_paths_checked": True})
+        mine = [v for v in w.viol if v[0] in ("sentinel",)]
+        for (rid, detail, msg, site) in mine:
+            chk.violation("C10.sentinel", ("%s %s" % (w.tag, detail)).strip(), msg, site)
+        if not mine:
+            chk.ok("C10.sentinel", w.tag, {"wrapper": w.tag, "exit_paths_checked": True})
     chk.floor("C10.sentinel", "leftrec wrappers", n, 2)
 
 
